@@ -366,6 +366,7 @@ RULES = [
     ("X-OPERANDS", "each operand of a comparison is evaluated afresh (no memo shared between operands or conditions: a remembered value comes back as text) [shared]", lambda ctx: __import__("conf").operands_evaluated_afresh(ctx)),
     ("X-REEVAL", "an expression evaluated twice for one entry has the same typed value both times (no text-valued memo beside the map handed in) [shared]", lambda ctx: __import__("gcev").reevaluation_is_stable(ctx)),
     ("X-CONFIG", "a setting read from both configurations is the user's value when present, the built-in default otherwise [shared]", lambda ctx: __import__("extra2").user_config_wins(ctx)),
+    ("C02-R8", "numeric comparisons by evaluation: a literal with a size unit denotes its byte count under every operator, the strict ones included [shared with C02]", lambda ctx: __import__("c02").r8(ctx)),
 ]
 
 EXPLANATION = (
